@@ -232,8 +232,17 @@ func (s *State) Assume(t Term) {
 	if len(s.qbinders) > 0 {
 		// a side fact produced while evaluating the body of a quantifier: it may
 		// mention the bound variables, so it is asserted for all of them
-		s.pc = s.pc.push("(forall (" + strings.Join(s.qbinders, " ") + ") " + t.S + ")")
-		return
+		var used []string
+		for _, b := range s.qbinders {
+			name := b[1:strings.IndexByte(b, ' ')]
+			if strings.Contains(t.S, name) {
+				used = append(used, b)
+			}
+		}
+		if len(used) > 0 {
+			s.pc = s.pc.push("(forall (" + strings.Join(used, " ") + ") " + t.S + ")")
+			return
+		}
 	}
 	s.pc = s.pc.push(t.S)
 }
